@@ -601,6 +601,21 @@ FamTools(K, CH) ==
                   c \in Pick(CH, ChangesET(gr)), t \in {Roots(gr)} \cup Pick(1, {<<o>> : o \in AllOutsG(gr)})} :
           gr \in ToolGraphs(K) }
 
+\* both logs padded past their recompaction thresholds (op "inflate": copies of their own records, same meaning): the next
+\* ninja that opens them for writing recompacts.  Dyndep-discovered outputs (known to the log, not to the manifest),
+\* deps-log statements, statements dropped from the manifest.
+FamLogs(K, CH) ==
+  UNION { {Scn(gr, <<Build(Roots(gr), 2, 1), [op |-> "inflate"], Build(Roots(gr), 2, 1), c, Build(Roots(gr), 2, 1), Build(Roots(gr), 2, 1)>>) : c \in Pick(CH, Changes(gr))}
+          \cup {Scn(gr, <<Build(Roots(gr), 2, 1), c, Build(Roots(gr), 2, 1), [op |-> "inflate"], Build(Roots(gr), 2, 1), Build(Roots(gr), 2, 1)>>) : c \in Pick(1, Changes(gr))} :
+          gr \in {x \in DynGraphs : \E i \in DOMAIN x.stmts : x.stmts[i].ddo # <<>>} }
+  \cup
+  UNION { UNION { {Scn(gr, <<Build(Roots(gr), 2, 1), [op |-> "inflate"], Build(Roots(gr), 2, 1), c, Build(Roots(gr), 2, 1), Build(Roots(gr), 2, 1)>>) : c \in Pick(CH, ChangesET(gr))} :
+                  gr \in GraphsS(sh, {"plain", "restat", "gcc", "msvc", "depfile", "restatgcc", "two"}, K) } :
+          sh \in {"chain2", "fanin", "fanout", "implicit", "mixed"} }
+FamToolsLogs(K, CH) ==
+  UNION { {Scn(gr, <<Build(Roots(gr), 2, 1), [op |-> "inflate"], ToolsOp(Roots(gr)), Build(Roots(gr), 2, 1), Build(Roots(gr), 2, 1)>>)} :
+          gr \in UNION {GraphsS(sh, {"plain", "gcc", "msvc", "restatgcc"}, K) : sh \in {"chain2", "fanin", "fanout"}} }
+
 \* graphs for the design-level model checking of NinjaImplMC (no histories: TLC explores them)
 FamMC(K, CH) ==
   UNION {GraphsS(sh, {"plain", "restat", "gcc", "two", "gen", "depfile"}, K) : sh \in {"chain2", "fanin", "fanout", "implicit", "oonly", "alias", "valid", "mixed", "chain3"}}
@@ -637,6 +652,8 @@ Family(name) ==
     [] name = "crash" -> FamCrash(ParK, ParCH)
     [] name = "status" -> FamStatus(ParK, ParCH)
     [] name = "tools" -> FamTools(ParK, ParCH)
+    [] name = "logs" -> FamLogs(ParK, ParCH)
+    [] name = "toolslogs" -> FamToolsLogs(ParK, ParCH)
 
 Fam == IF "FAM" \in DOMAIN IOEnv THEN IOEnv.FAM ELSE "sched"
 Out == IF "OUT" \in DOMAIN IOEnv THEN IOEnv.OUT ELSE "scenarios.ndjson"
